@@ -389,6 +389,16 @@ FEATS = (('nodef', '--no-default-features'), ('pt', '--no-default-features --fea
 def c17_extra(cases, impl, model, run_sharded, HAR, CACHE, pid):
     res = dict(programs=4, transcripts={})
     broken = []
+    def errtexts(har):
+        r = subprocess.run([har, 'errtexts'], stdin=subprocess.DEVNULL, capture_output=True, text=True)
+        return [l for l in r.stdout.splitlines() if not l.startswith('package ')], [l for l in r.stdout.splitlines() if l.startswith('package ')]
+    base_txt = errtexts(HAR)
+    res['error_texts'] = len(base_txt[0]) + len(base_txt[1])
+    for name, _ in FEATS:
+        t = errtexts(f'{CACHE}/target-{name}/release/vharness')
+        if t[0] != base_txt[0] or (t[1] and t[1] != base_txt[1]):
+            broken.append(f'feature set {name}: error texts differ from the default build')
+            res['failing'] = dict(case='errtexts', printable='Display text of the error variants', default_features='\n'.join(base_txt[0] + base_txt[1]), other='\n'.join(t[0] + t[1]), feature_set=name)
     for name, _ in FEATS:
         out = run_sharded(f'{CACHE}/target-{name}/release/vharness run', cases, f'{pid}.{name}')
         diff = [i for i, (a, b) in enumerate(zip(impl, out)) if b != 'SKIP' and a != b]
@@ -406,7 +416,7 @@ PROPS['C17'] = dict(
     gen=lambda tier, rng: chain(gens.gen_tok(Q(tier, {'head': 3, 'path': 3, 'qual': 3, 'sub': 3}, TOK_T), ('g', 's', 't')), gens.gen_spell(rng, Q(tier, 20000, 200000), ('g', 's', 't')),
                                 gens.gen_fault(rng, Q(tier, 10000, 100000)), gens.gen_build(rng, Q(tier, 20000, 200000), 1, ('g', 's', 'b', 'o', 't')),
                                 gens.gen_qops(rng, Q(tier, 2000, 20000)), gens.gen_cs(rng, Q(tier, 2000, 20000))),
-    compare=c17_compare,
+    compare=c17_compare, extra=c17_extra,
     rule='one deterministic stream (token language, seeded spellings, faults, builder, qualifier and checksum sequences) run through the harness built with '
          '{default}, {no features}, {package-type}, {default+serde}; every transcript compared line by line with the default one and with the extracted model '
          '(the typed API only where it exists); error texts are compared through their variants',
